@@ -103,6 +103,7 @@ pub mod pool_iter {
     }
 
     /// `Iterator::map(f)`: item i of the result satisfies the postcondition of `f` for item i of the source
+    #[verifier::opaque]
     pub open spec fn is_map<B, C, F: FnMut(B) -> C>(src: Seq<B>, f: F, out: Seq<C>) -> bool {
         &&& out.len() == src.len()
         &&& forall|i: int| #![trigger src[i]] #![trigger out[i]] 0 <= i < src.len() ==> call_ensures(f, (src[i],), out[i])
@@ -118,6 +119,7 @@ pub mod pool_iter {
     /// `Iterator::filter_map(f)`: `f` is applied to every item; the payloads of the `Some` results are kept.
     /// (Stated element-wise: every kept item is the `Some` payload of `f` on some source item, and every source item
     /// either was mapped to `None` or its payload was kept.  Order and multiplicity are not exposed.)
+    #[verifier::opaque]
     pub open spec fn is_filter_map<B, C, F: FnMut(B) -> Option<C>>(src: Seq<B>, f: F, out: Seq<C>) -> bool {
         &&& out.len() <= src.len()
         &&& forall|k: int| 0 <= k < out.len() ==> fm_from(src, f, #[trigger] out[k])
@@ -134,8 +136,34 @@ pub mod pool_iter {
         }
     }
     /// `Iterator::max_by(compare)`: None iff empty
+    #[verifier::opaque]
     pub open spec fn is_max_by<B, F: FnMut(&B, &B) -> Ordering>(src: Seq<B>, compare: F, r: Option<B>) -> bool {
         if src.len() == 0 { r is None } else { r matches Some(x) && max_by_fold(src, compare, src.len() as int, x) }
+    }
+    // (is_map / is_filter_map / is_max_by are `opaque`: the two quantifiers of is_filter_map feed each other's triggers,
+    // so clients `reveal` them only where the general form is needed.)
+    // ---- the same contracts spelled out for sources of at most two items.  REDUNDANT: each `*_small` predicate is
+    // implied by the general predicate above (proved, not assumed: lemma_map_small / lemma_filter_map_small /
+    // lemma_max_by_small in unit c41_multi_pools).  They are stated in the `ensures` as well because facts about
+    // closures created inside a generic function do not reach broadcast lemmas that are generic in the closure type.
+    pub open spec fn map_small<B, C, F: FnMut(B) -> C>(src: Seq<B>, f: F, out: Seq<C>) -> bool {
+        &&& out.len() == src.len()
+        &&& src.len() > 0 ==> call_ensures(f, (src[0],), out[0])
+        &&& src.len() > 1 ==> call_ensures(f, (src[1],), out[1])
+    }
+    pub open spec fn filter_map_small<B, C, F: FnMut(B) -> Option<C>>(src: Seq<B>, f: F, out: Seq<C>) -> bool {
+        &&& out.len() <= src.len()
+        &&& src.len() <= 2 ==> {
+            &&& out.len() > 0 ==> ((src.len() > 0 && call_ensures(f, (src[0],), Some(out[0]))) || (src.len() > 1 && call_ensures(f, (src[1],), Some(out[0]))))
+            &&& out.len() > 1 ==> ((src.len() > 0 && call_ensures(f, (src[0],), Some(out[1]))) || (src.len() > 1 && call_ensures(f, (src[1],), Some(out[1]))))
+            &&& src.len() > 0 ==> (call_ensures(f, (src[0],), None::<C>) || (out.len() > 0 && call_ensures(f, (src[0],), Some(out[0]))) || (out.len() > 1 && call_ensures(f, (src[0],), Some(out[1]))))
+            &&& src.len() > 1 ==> (call_ensures(f, (src[1],), None::<C>) || (out.len() > 0 && call_ensures(f, (src[1],), Some(out[0]))) || (out.len() > 1 && call_ensures(f, (src[1],), Some(out[1]))))
+        }
+    }
+    pub open spec fn max_by_small<B, F: FnMut(&B, &B) -> Ordering>(src: Seq<B>, compare: F, r: Option<B>) -> bool {
+        &&& src.len() == 0 ==> r is None
+        &&& src.len() == 1 ==> r == Some(src[0])
+        &&& src.len() == 2 ==> exists|o: Ordering| #[trigger] call_ensures(compare, (&src[0], &src[1]), o) && r == Some(if o is Greater { src[0] } else { src[1] })
     }
     /// stands for `<[T; N] as IntoIterator>::into_iter` (by-value array iteration: the elements in order) as the
     /// head of an adapter chain; units @subst `[..].into_iter()` to `[..].into_iter_shim()`
@@ -155,19 +183,19 @@ pub mod pool_iter {
         #[verifier::external_body]
         pub fn map<C, F: FnMut(B) -> C>(self, f: F) -> (r: Mapped<C>)
             requires forall|i: int| 0 <= i < self.seq().len() ==> call_requires(f, (#[trigger] self.seq()[i],)),
-            ensures is_map(self.seq(), f, r.seq()),
+            ensures is_map(self.seq(), f, r.seq()), map_small(self.seq(), f, r.seq()),
         { unimplemented!() }
         /// `Iterator::filter_map(f)`
         #[verifier::external_body]
         pub fn filter_map<C, F: FnMut(B) -> Option<C>>(self, f: F) -> (r: Mapped<C>)
             requires forall|i: int| 0 <= i < self.seq().len() ==> call_requires(f, (#[trigger] self.seq()[i],)),
-            ensures is_filter_map(self.seq(), f, r.seq()),
+            ensures is_filter_map(self.seq(), f, r.seq()), filter_map_small(self.seq(), f, r.seq()),
         { unimplemented!() }
         /// `Iterator::max_by(compare)`
         #[verifier::external_body]
         pub fn max_by<F: FnMut(&B, &B) -> Ordering>(self, compare: F) -> (r: Option<B>)
             requires forall|i: int, j: int| 0 <= i < self.seq().len() && 0 <= j < self.seq().len() ==> call_requires(compare, (&#[trigger] self.seq()[i], &#[trigger] self.seq()[j])),
-            ensures is_max_by(self.seq(), compare, r),
+            ensures is_max_by(self.seq(), compare, r), max_by_small(self.seq(), compare, r),
         { unimplemented!() }
         /// `Iterator::collect()`
         #[verifier::external_body]
